@@ -2,7 +2,7 @@
    Everything here is executable Gallina; no proofs. *)
 From Coq Require Import List NArith ZArith String Bool.
 Import ListNotations.
-From UV Require Import Py.Val Py.Str Py.Utf8 Py.Regex Py.UrlLib Gen.Patterns Ural.TrieDict Ural.Utils Ural.HostnameTrieSet Ural.SuffixTrie Ural.Tld Proofs.SuffixTrieFacts Py.Pct Ural.Quote Spec.C14 Gen.Tables Ural.FormatUrl.
+From UV Require Import Py.Val Py.Str Py.Utf8 Py.Regex Py.UrlLib Gen.Patterns Ural.TrieDict Ural.Utils Ural.HostnameTrieSet Ural.SuffixTrie Ural.Tld Proofs.SuffixTrieFacts Py.Pct Ural.Quote Spec.C14 Gen.Tables Ural.FormatUrl Ural.InferRedirection.
 Open Scope string_scope.
 
 Definition opt_wrap (o : option val) : val :=
@@ -308,6 +308,15 @@ Definition do_queryarg (arg : val) : val :=
   | _ => vbad
   end.
 
+(* ---------------- infer_redirection (C15) ---------------- *)
+Definition do_infer (arg : val) : val :=
+  match arg with
+  | VL [ev; VS url; VB recursive] =>
+      let e := env_of ev in
+      if recursive then vres VS (infer_redirection e url) else vres VS (infer_once e url)
+  | _ => vbad
+  end.
+
 (* ---------------- dispatch ---------------- *)
 Definition table : list (str * (val -> val)) :=
   [ (lit "triedict", do_triedict);
@@ -322,7 +331,8 @@ Definition table : list (str * (val -> val)) :=
     (lit "quote", do_quote);
     (lit "c14spec", do_c14spec);
     (lit "format_url", do_format_url);
-    (lit "queryarg", do_queryarg) ].
+    (lit "queryarg", do_queryarg);
+    (lit "infer", do_infer) ].
 
 Fixpoint find_fn (name : str) (l : list (str * (val -> val))) : option (val -> val) :=
   match l with
